@@ -455,7 +455,10 @@ class IntegerFieldFormat(AbstractFieldFormat):
                         % (_compat.text_repr(field_name), self.length)
                     )
                 length = ranges.Range("1...%d" % self.length.upper_limit)
-            length_range = ranges.create_range_from_length(length)
+            try:
+                length_range = ranges.create_range_from_length(length)
+            except errors.RangeValueError as error:
+                raise errors.InterfaceError("length must be a valid length for an integer number: %s" % error)
 
         has_rule = (rule is not None) and (rule.strip() != "")
         if has_rule:
